@@ -87,6 +87,9 @@ type scenario struct {
 	// answers its own requests faithfully). No response the node asked for is a lie, so on a correct node no
 	// verification can fail and nobody but the pushers may be stopped.
 	Family string `json:"family,omitempty"`
+	// CrashCuts (per mille of the store mutation journal of the finished sync): the node is "restarted" from the
+	// stores as a crash at each of these points would have left them
+	CrashCuts []int `json:"cuts,omitempty"`
 }
 
 // ---- response kinds ----
@@ -171,6 +174,9 @@ func genScenario(t *rapid.T, reactor string, thorough bool) *scenario {
 		sc.Heights = append(sc.Heights, hs)
 	}
 
+	for i := 0; i < 4; i++ {
+		sc.CrashCuts = append(sc.CrashCuts, rapid.IntRange(0, 1000).Draw(t, "crashcut"))
+	}
 	if rapid.SampledFrom([]string{"mixed", "mixed", "mixed", "mixed", "push"}).Draw(t, "family") == "push" {
 		genPushPeers(t, sc, n)
 		return sc
